@@ -250,6 +250,18 @@ func (g *Gen) reportOp() Op {
 			info.Cci = 0
 		} else if y < 4 {
 			info.Inc = true
+			if g.R.Intn(3) == 0 {
+				// a careless client: flagged incomplete, yet a member list is attached (any list: the entry must be treated as
+				// incomplete whatever it carries)
+				junk := [][]interface{}{}
+				for _, k := range sortedIDs(m.Reps) {
+					if g.R.Intn(3) != 0 {
+						junk = append(junk, []interface{}{k, m.Reps[k]})
+					}
+				}
+				junk = append(junk, []interface{}{uint64(100*int(s) + 9), addr})
+				info.Reps = junk
+			}
 		} else {
 			reps := [][]interface{}{}
 			ks := sortedIDs(m.Reps)
